@@ -151,6 +151,9 @@ def second_scan(case, asm):
     _f, want2, _d = brute_pairs(scaffolds)
     pos = {id(row): (a, b) for a, sc in enumerate(asm.scaffolds) for b, row in enumerate(sc.rows)}
     got2 = must(asm.find_overlapping_fragments, what="find_overlapping_fragments (second scan)") or []
+    for (f1, _s1), (f2, _s2) in got2:
+        if id(f1) not in pos or id(f2) not in pos:
+            raise Violation(f"after a row was replaced in place the second scan reports a fragment that is no longer in the assembly: {f1} / {f2}")
     seen2 = {tuple(sorted((pos[id(f1)], pos[id(f2)]))) for (f1, _s1), (f2, _s2) in got2}
     if seen2 != want2 or len(got2) != len(want2):
         raise Violation(f"after a row was replaced in place the second scan reports {sorted(seen2)}, brute force finds {sorted(want2)}")
